@@ -1,14 +1,17 @@
 // Harness for C01 on the real entry points ("encoding … and decoding the result yields an equal message and consumes
 // exactly the bytes produced", through the sessions that carry the encodings):
 //
-//   strm <client|server> <cache> <cuts|-> <n> <msg>*   the n messages are encoded with the real stream coder (pooled
-//         MarshalWithEncoder), concatenated, and written to a real tcp connection (tcp.Client over net.Pipe, or the
-//         connection a real tcp.Server makes) in chunks that end at the byte offsets <cuts> (comma separated) of the
-//         stream; <cache> = ConnectionCacheSize (the session's read size and nominal buffer size).  Output
-//         `strm <delivered> closed=<0|1> | <msg> | …` — what the handler received, in order.
-//   udpx <n> <step>*   a real udp/client.Conn whose handler answers every request with 2.05, Content-Format 42 and the
-//         request's payload.  step `r:<mid>:<tok>:<pay>` = a new confirmable POST, `d:<i>` = a duplicate of the i-th `r`
-//         step (lost ACK).  Output `udpx <k> <datagram>*` — every datagram the connection wrote, in order.
+//	strm <client|server> <cache> <cuts|-> <n> <msg>*   the n messages are encoded with the real stream coder (pooled
+//	      MarshalWithEncoder), concatenated, and written to a real tcp connection (tcp.Client over net.Pipe, or the
+//	      connection a real tcp.Server makes) in chunks that end at the byte offsets <cuts> (comma separated) of the
+//	      stream; <cache> = ConnectionCacheSize (the session's read size and nominal buffer size).  Output
+//	      `strm <delivered> closed=<0|1> | <msg> | …` — what the handler received, in order.
+//	udpx <n> <step>*   a real udp/client.Conn whose handler answers every request with 2.05, Content-Format 42 and the
+//	      request's payload.  step `r:<mid>:<tok>:<pay>` = a new confirmable POST, `d:<i>` = a duplicate of the i-th `r`
+//	      step (lost ACK).  Output `udpx <k> <datagram>*` — every datagram the connection wrote, in order.
+//	usrv <maxsize> <n> <msg>*   a real udp.Server on a loopback socket (options.WithMaxMessageSize(<maxsize>), 0 = default):
+//	      every message is encoded with the real datagram coder and sent as ONE datagram from a raw socket; output
+//	      `usrv <delivered> | <msg> | …` — what the server's handler received (real time, waits for each delivery).
 package c01rx
 
 import (
@@ -21,6 +24,7 @@ import (
 	"sync"
 	"testing"
 	"testing/synctest"
+	"time"
 
 	"github.com/plgd-dev/go-coap/v3/message"
 	"github.com/plgd-dev/go-coap/v3/message/codes"
@@ -31,6 +35,7 @@ import (
 	tcpcoder "github.com/plgd-dev/go-coap/v3/tcp/coder"
 	udpclient "github.com/plgd-dev/go-coap/v3/udp/client"
 	udpcoder "github.com/plgd-dev/go-coap/v3/udp/coder"
+	udpserver "github.com/plgd-dev/go-coap/v3/udp/server"
 	"verifharness/codecx"
 	"verifharness/internal/lp"
 	"verifharness/internal/mem"
@@ -173,6 +178,42 @@ func runUDPExchange(t *testing.T, steps []step) (out string) {
 	return out
 }
 
+func runUDPServer(maxSize int, msgs []message.Message) string {
+	var extra []udpserver.Option
+	if maxSize > 0 {
+		extra = append(extra, options.WithMaxMessageSize(uint32(maxSize)))
+	}
+	rig, err := codecx.StartUDPRig(extra...)
+	if err != nil {
+		return "listen-error"
+	}
+	defer rig.Stop()
+	peer, port, err := rig.Peer()
+	if err != nil {
+		return "dial-error"
+	}
+	defer func() { _ = peer.Close() }()
+	buf := make([]byte, 70000)
+	for i, m := range msgs {
+		n, e := udpcoder.DefaultCoder.Encode(m, buf)
+		if e != nil {
+			return "usrv encode-error " + codecx.ErrKind(e)
+		}
+		if _, e := peer.Write(buf[:n]); e != nil {
+			return "usrv write-error"
+		}
+		if !rig.Wait(i+1, 2*time.Second) {
+			break
+		}
+	}
+	got := rig.Of(port)
+	out := fmt.Sprintf("usrv %d", len(got))
+	if len(got) > 0 {
+		out += " | " + strings.Join(got, " | ")
+	}
+	return out
+}
+
 func TestC01RX(t *testing.T) {
 	err := lp.FileLoop(func(f []string, w *bufio.Writer) {
 		res := func() (r string) {
@@ -212,6 +253,26 @@ func TestC01RX(t *testing.T) {
 					return "bad-op"
 				}
 				return runStream(t, f[1] == "server", cache, cuts, msgs)
+			case len(f) >= 3 && f[0] == "usrv":
+				maxSize, e1 := strconv.Atoi(f[1])
+				n, e2 := strconv.Atoi(f[2])
+				if e1 != nil || e2 != nil {
+					return "bad-op"
+				}
+				rest := f[3:]
+				var msgs []message.Message
+				for i := 0; i < n; i++ {
+					m, r2, e := codecx.ParseMsg(rest)
+					if e != nil {
+						return "bad-op"
+					}
+					msgs = append(msgs, m)
+					rest = r2
+				}
+				if len(rest) != 0 {
+					return "bad-op"
+				}
+				return runUDPServer(maxSize, msgs)
 			case len(f) >= 2 && f[0] == "udpx":
 				n, e := strconv.Atoi(f[1])
 				if e != nil || len(f) != 2+n {
